@@ -380,6 +380,10 @@ def wl_sketch(ctx, rng, case):
     cls_name = rng.choice(["CountMinSketch", "CountMeanSketch", "CountMeanMinSketch", "HeavyHitters", "StreamThreshold"])
     cls = getattr(P, cls_name)
     keys = [k for k in gen.universe(rng, rng.randint(3, 10), kinds=("str",))]
+    if rng.random() < 0.4:
+        # keys given as bytes (some of them the byte spelling of a text key of the universe: two keys for the tables, one for the counters)
+        keys = keys + [gen.to_bytes(k) for k in rng.sample(keys, min(len(keys), 3))] + [b"\xff\xfe raw"]
+        ctx.count("sketch_universes_with_bytes_keys")
     hname, hf = gen.pick_hash(rng, keys)
     w, d = rng.choice([2, 3, 5, 50]), rng.randint(1, 4)
     extra = {"num_hitters": rng.randint(1, 3)} if cls_name == "HeavyHitters" else ({"threshold": rng.randint(1, 5)} if cls_name == "StreamThreshold" else {})
@@ -388,38 +392,46 @@ def wl_sketch(ctx, rng, case):
     sc = bl.Scratch(ctx, case)
     try:
         mk = lambda: cls(width=w, depth=d, **extra, **bl.kw_hash(hf))
-        f = mk()
-        for _ in range(rng.randint(0, 16)):
-            k = rng.choice(keys)
-            if cls_name != "HeavyHitters" and rng.random() < 0.35:
-                n = rng.randint(1, 5)
-                f.remove(k, n)  # any removal the API accepts (also of keys never added): reachable states
-                case.op("remove", k, n)
-            else:
-                n = rng.randint(1, 5)
-                f.add(k, n)
-                case.op("add", k, n)
-        for _ in range(rng.choice([0, 0, 0, 1, 2])):
-            # states a refused call leaves behind: too few hashes for the depth, an unsupported operation of the subclass
-            kk = rng.choice(keys)
-            try:
-                r = rng.random()
-                if r < 0.4:
-                    f.add_alt(*(([kk] if extra else []) + [f.hashes(kk)[: rng.randint(0, max(0, d - 1))], rng.randint(1, 3)]))
-                elif r < 0.7 and cls_name != "HeavyHitters":
-                    f.remove_alt(*(([kk] if extra else []) + [f.hashes(kk)[: rng.randint(0, max(0, d - 1))], 1]))
-                elif r < 0.85:
-                    f.join(mk()) if extra else f.join(P.CountMinSketch(width=w + 1, depth=d, **bl.kw_hash(hf)))
+        seed_b = rng.getrandbits(32)
+
+        def build(r, log):
+            """the state under test, built from a private random stream: called twice, it gives two sketches with the same history"""
+            f = mk()
+            for _ in range(r.randint(0, 16)):
+                k = r.choice(keys)
+                if cls_name != "HeavyHitters" and r.random() < 0.35:
+                    n = r.randint(1, 5)
+                    f.remove(k, n)  # any removal the API accepts (also of keys never added): reachable states
+                    log("remove", k, n)
                 else:
-                    f.remove(kk) if cls_name == "HeavyHitters" else f.add_alt(*(([kk] if extra else []) + [["x"] * d, 1]))
-            except Exception:
-                ctx.count("states_after_a_refused_call")
-        if f.elements_added == 0 and any(c != 0 for c in bytes(f)[:-16]):
-            ctx.count("states_with_zero_total_but_nonzero_cells")
-        if rng.random() < 0.3 and cls_name not in ("HeavyHitters", "StreamThreshold"):
-            f = cls.frombytes(bytes(f), **bl.kw_hash(hf)) if rng.random() < 0.5 else cls.frombytes(bytearray(bytes(f)), **bl.kw_hash(hf))
-            case.op("state-reloaded")
-            ctx.count("reloaded_states")
+                    n = r.randint(1, 5)
+                    f.add(k, n)
+                    log("add", k, n)
+            for _ in range(r.choice([0, 0, 0, 1, 2])):
+                # states a refused call leaves behind: too few hashes for the depth, an unsupported operation of the subclass
+                kk = r.choice(keys)
+                try:
+                    q = r.random()
+                    if q < 0.4:
+                        f.add_alt(*(([kk] if extra else []) + [f.hashes(kk)[: r.randint(0, max(0, d - 1))], r.randint(1, 3)]))
+                    elif q < 0.7 and cls_name != "HeavyHitters":
+                        f.remove_alt(*(([kk] if extra else []) + [f.hashes(kk)[: r.randint(0, max(0, d - 1))], 1]))
+                    elif q < 0.85:
+                        f.join(mk()) if extra else f.join(P.CountMinSketch(width=w + 1, depth=d, **bl.kw_hash(hf)))
+                    else:
+                        f.remove(kk) if cls_name == "HeavyHitters" else f.add_alt(*(([kk] if extra else []) + [["x"] * d, 1]))
+                except Exception:
+                    ctx.count("states_after_a_refused_call")
+            if f.elements_added == 0 and any(c != 0 for c in bytes(f)[:-16]):
+                ctx.count("states_with_zero_total_but_nonzero_cells")
+            if r.random() < 0.3 and cls_name not in ("HeavyHitters", "StreamThreshold"):
+                f = cls.frombytes(bytes(f), **bl.kw_hash(hf)) if r.random() < 0.5 else cls.frombytes(bytearray(bytes(f)), **bl.kw_hash(hf))
+                log("state-reloaded")
+                ctx.count("reloaded_states")
+            return f
+
+        f = build(_stdrandom.Random(seed_b), case.op)
+        twin = build(_stdrandom.Random(seed_b), lambda *a: None)  # never read, never exported until the very end
         before = state_sketch(f)
         g = P.CountMinSketch(width=w, depth=d, **bl.kw_hash(hf))
         g.add(keys[0], 2)
@@ -460,6 +472,18 @@ def wl_sketch(ctx, rng, case):
         same(ctx, before, state_sketch(f), f"{cls_name} after read-only calls {sorted(set(done))}")
         ctx.count("read_batches")
         ctx.count("read_only_calls", len(done))
+        # ---- the TWIN (same history, but nobody has looked at it) and the sketch that was read now receive the same further updates: a
+        # read that re-arranged something the accessors do not show would make the two diverge
+        later = [(k, 1, False) for k in rng.sample(keys, len(keys))]  # every key of the universe once more (tracked ones included), then a few random calls
+        later += [(rng.choice(keys), rng.randint(1, 4), cls_name != "HeavyHitters" and rng.random() < 0.3) for _ in range(rng.randint(3, 10))]
+        for step, (k, n, rem) in enumerate(later):
+            if rem:
+                r1, r2 = f.remove(k, n), twin.remove(k, n)
+            else:
+                r1, r2 = f.add(k, n), twin.add(k, n)
+            ctx.check(r1 == r2, f"a {cls_name} that was read and its unread twin return different values for the same later call", r1=r1, r2=r2, step=step)
+        same(ctx, state_sketch(twin), state_sketch(f), f"{cls_name} that received read-only calls {sorted(set(done))} vs its unread twin, after the same further updates")
+        ctx.count("twin_comparisons")
         # ---- clear() vs fresh, then the same further history on both
         f.clear()
         fresh = mk()
@@ -655,6 +679,6 @@ PROP = Prop(
         Workload("quotient", wl_quotient, quick=400, thorough=150000),
     ],
     assumptions=["observable state = what the public API exposes (exports, counters, tables, bucket table, print() dump)"],
-    required=["read_batches", "read_only_calls", "clear_comparisons", "states_with_zero_total_but_nonzero_cells", "reloaded_states", "refused_exports",
+    required=["read_batches", "read_only_calls", "clear_comparisons", "states_with_zero_total_but_nonzero_cells", "reloaded_states", "refused_exports", "twin_comparisons",
               "quotient.completely_full_tables", "quotient.states_whose_load_is_at_or_over_the_limit_with_growing_on"],
 )
